@@ -5,6 +5,8 @@ import (
 	"os"
 	"sort"
 	"strings"
+	"sync/atomic"
+	"unsafe"
 
 	"verifprobe/fx"
 	"verifsim/choice"
@@ -59,23 +61,39 @@ func RunPlan(e *Entry, p *Plan) *RunOut {
 		for range p.Tasks {
 			sessions = append(sessions, NewSession(e, p.NCtx))
 		}
-	} else {
-		sessions[0].Construct()
 	}
 	sess := sessions[0]
-	for i, op := range p.Pre {
-		if p.Multi && op.Kind == "OvSvc" {
-			continue // every task overrides the placeholders of its own container, right after constructing it
-		}
-		sess.Exec(-1, i, op)
-	}
 	racePath, before := raceLogSize()
 	res := make([][]OpResult, len(p.Tasks))
 	fns := make([]func(), len(p.Tasks))
+	// construction and the preparatory operations (faults, overrides of placeholders) happen inside the
+	// scheduled phase too, in task 0, while the other tasks wait: a goroutine that the generated constructor
+	// starts is a task like any other and interleaves with what follows
+	var ready atomic.Bool
+	readyKey := uintptr(unsafe.Pointer(&ready))
+	setup := func() {
+		if !p.Multi {
+			sess.Construct()
+		}
+		for i, op := range p.Pre {
+			if p.Multi && op.Kind == "OvSvc" {
+				continue // every task overrides the placeholders of its own container, right after constructing it
+			}
+			sess.Exec(-1, i, op)
+		}
+		ready.Store(true)
+		sched.Wake(readyKey)
+	}
 	for t := range p.Tasks {
 		t := t
 		res[t] = make([]OpResult, len(p.Tasks[t]))
 		fns[t] = func() {
+			if t == 0 {
+				setup()
+			}
+			for !ready.Load() {
+				sched.Block(readyKey)
+			}
 			s := sess
 			if p.Multi {
 				s = sessions[t]
